@@ -193,7 +193,8 @@ def build_catalog():
     entry("p.alignment", "p", "alignment", [E("text", "PP_ALIGN", n) for n in ("LEFT", "CENTER", "RIGHT", "JUSTIFY", "DISTRIBUTE", "THAI_DISTRIBUTE", "JUSTIFY_LOW")] + [NONE],
           [S("center"), I(99)], none="none")
     entry("p.level", "p", "level", [I(i) for i in range(9)], [I(9), I(-1), S("1")])
-    entry("p.line_spacing", "p", "line_spacing", lambda r: r.choice([F(1.0), F(1.5), F(0.9), F(2.0), F(0.0), F(132.0), F(1.23456), PT(12), PT(20.5), PT(0), PT(1584), NONE]),
+    entry("p.line_spacing", "p", "line_spacing", lambda r: r.choice([F(1.0), F(1.5), F(0.9), F(2.0), F(0.0), F(132.0), F(1.23456), PT(12), PT(20.5), PT(0), PT(1584), NONE,
+                                                                    I(2), I(1), I(3)]),     # "A numeric value, e.g. 2 or 1.5": an int is a number of lines too
           [S("x"), F(132.5), F(-0.1), PT(1585)], eq_tol(max(FRAC_Q, CPT_Q)), none="none")
     for a in ("space_before", "space_after"):
         entry("p." + a, "p", a, lambda r: r.choice([PT(0), PT(6), PT(12.5), PT(1584), PT(0.01), NONE]), [S("x"), PT(1585), PT(-1)], eq_tol(CPT_Q), none="none")
@@ -756,7 +757,7 @@ def gen_trace(seed: int, tier: str) -> dict:
     n = r.randint(10, 40) if tier == "quick" else r.randint(25, 120)
     events, sw = common.gen_history(seed, fault_rate=common.fault_arm(seed), n_events=n, families=["c09"], always=("c09",), ckpt=0.05, reopen=0.06, restart=0.03,
                                     observe=0.01, jump=0.0, fork=0.03, warmup=False)
-    common.rewritten_between_sessions(seed, events, hows=("bool_words",))
+    common.rewritten_between_sessions(seed, events, hows=("bool_words", "charts:reverse_repeated", "charts:optional_children"))
     pre = [dict(e, dt=1.0) for e in kit_events()] + [{"op": "checkpoint", "sink": "seekable", "dt": 1.0}]  # the kit is durable
     return {"property": ID, "seed": seed, "tier": tier, "config": {"max_slides": 40, "max_shapes": 80},
             "start": [_start(S("start"))], "events": pre + events}
@@ -816,6 +817,19 @@ def pinned_traces(tier):
                     {"op": "c09.set", "entry": other, "v": Y, "kind": "good", "slide": 0, "i": 1},
                     {"op": "checkpoint", "sink": "seekable"}, {"op": "restart"}]
             out.append({"property": ID, "seed": "shared-url-%s-%s" % (eid, second["k"]), "tier": "pinned", "config": {"pinned": True}, "start": [{"deck": "default"}], "events": evs})
+    # data labels / data points of single points exist, another producer stores them in another order (c:dLbl, c:dPt are unordered lists),
+    # then the same and other points are touched again
+    for how in ("reverse_repeated",):
+        evs = list(kit_events())
+        for i_ in (0, 1):
+            evs += [{"op": "c09.set", "entry": "dlbl.has_text_frame", "v": B(True), "kind": "good", "slide": 0, "i": i_},
+                    {"op": "c09.set", "entry": "pointmarker.size", "v": I(5 + i_), "kind": "good", "slide": 0, "i": i_}]
+        evs += [{"op": "checkpoint", "sink": "seekable"}, {"op": "restart", "xform": [{"kind": "rewrite_charts", "how": how}]}]
+        for i_ in (1, 0, 1):
+            evs += [{"op": "c09.set", "entry": "dlbl.position", "v": E("chart", "XL_DATA_LABEL_POSITION", "CENTER"), "kind": "good", "slide": 0, "i": i_},
+                    {"op": "c09.set", "entry": "pointmarker.style", "v": E("chart", "XL_MARKER_STYLE", "DIAMOND"), "kind": "good", "slide": 0, "i": i_}]
+        evs += [{"op": "checkpoint", "sink": "seekable"}, {"op": "restart"}]
+        out.append({"property": ID, "seed": "point-elements-in-another-order-%s" % how, "tier": "pinned", "config": {"pinned": True}, "start": [{"deck": "default"}], "events": evs})
     evs = list(kit_events()) + [{"op": "c09.set", "entry": "shape.left", "v": I(111111), "kind": "good", "slide": 0, "i": 0}]
     evs += [{"op": "checkpoint", "sink": "seekable"}] + [{"op": "checkpoint", "sink": "seekable", "fault": {"kind": k_, "at": 50, "at_frac": f_, "sticky": False}} for k_, f_ in (("enospc", 0.97), ("eio", 0.995), ("enospc", 0.6))]
     evs += [{"op": "c09.set", "entry": "shape.left", "v": I(555555), "kind": "good", "slide": 0, "i": 0}, {"op": "c09.set", "entry": "font.bold", "v": B(True), "kind": "good", "slide": 0, "i": 0},
